@@ -204,6 +204,13 @@ def _file_of_key(db, fn):
     return out
 
 
+def _per_site(stub):
+    """Sites whose safety is a fact about the operands at that very site (the sort check of an IL constructor): a review of one
+    such site says nothing about another, so they are never matched by producer class - only exactly, or per function / file
+    under the count guard (one more such site than reviewed is reported)."""
+    return "@il::expression::Expression::" in stub or "@il::constant::Constant::" in stub
+
+
 def _stub_class(stub):
     """`unwrap@a::b::Type::<T>::method` -> `unwrap@Type::<T>::method`: the producer without the module it lives in."""
     kind, _, origin = stub.partition("@")
@@ -233,7 +240,7 @@ def reach_rule(db, rep, r, entries, scope_prefixes=None, allow=None, site_allow=
         parts = k.split("|")
         if len(parts) < 2:
             continue
-        if parts[1].startswith("unwrap@"):
+        if parts[1].startswith("unwrap@") and not _per_site(parts[1]):
             f0 = _file_of_key(db, parts[0])
             if f0 is not None:
                 class_allow.setdefault((f0, _stub_class(parts[1])), why)
@@ -285,9 +292,9 @@ def reach_rule(db, rep, r, entries, scope_prefixes=None, allow=None, site_allow=
                 stub = s["key"].split("|")[1]
                 ck = (db.mir.file_of(fn), stub)
                 fk = (_parent_fn(fn), stub)
-                if stub.startswith("unwrap@"):
+                if stub.startswith("unwrap@") and not _per_site(stub):
                     ck = (db.mir.file_of(fn), _stub_class(stub))
-                if stub.startswith("unwrap@") and ck in class_allow:
+                if stub.startswith("unwrap@") and not _per_site(stub) and ck in class_allow:
                     reason = "same class as a reviewed site (%s in %s): %s" % (ck[1], ck[0], class_allow[ck])
                     used_allow.add("class:%s|%s" % ck)
                 elif fk in fn_allow and site_counts.get(fk, 0) <= len(fn_allow[fk]):
